@@ -624,6 +624,10 @@ class GatewayPair:
         gb = execnet.gateway_base
         self._real_os = gb.os
         gb.os = self.os_proxy
+        # RemoteError.warn() only prints to stderr ("unhandled RemoteError"); keep the check's output readable
+        self._real_warn = gb.RemoteError.warn
+        self.warnings = []
+        gb.RemoteError.warn = lambda err, _w=self.warnings: _w.append(err.formatted[-80:])
         self.group = execnet.Group(execmodel=self.em)
         spec = execnet.XSpec("popen//id=gwA")
         self.worker = gb.WorkerGateway(io=self.io_b, id="gwA-worker", _startcount=2)
@@ -643,6 +647,9 @@ class GatewayPair:
         if getattr(self, "_real_os", None) is not None:
             self.execnet.gateway_base.os = self._real_os
             self._real_os = None
+        if getattr(self, "_real_warn", None) is not None:
+            self.execnet.gateway_base.RemoteError.warn = self._real_warn
+            self._real_warn = None
         # the Group registered an atexit hook; make it a no-op for our fake members
         if self.group is not None:
             try:
